@@ -19,6 +19,7 @@ var negControls = []struct {
 	{"MC_Walk", "MC_Walk_resolve_noseen.cfg", "inv:WorkBounded"},
 	{"MC_Walk", "MC_Walk_length_noscalar.cfg", "inv:NoOverflow"},
 	{"MC_Walk", "MC_Walk_length_ascoded.cfg", "inv:NoOverflow"},
+	{"MC_Walk", "MC_Walk_length_filterstm.cfg", "inv:NoOverflow"},
 	{"MC_Walk", "MC_Walk_xref_noseen.cfg", "temporal"},
 	{"MC_Walk", "MC_Walk_pages_noseen.cfg", "temporal"},
 	{"MC_Walk", "MC_Walk_outline_noseen.cfg", "temporal"},
@@ -198,7 +199,7 @@ var actionOf = map[string]string{}
 func init() {
 	for w, as := range map[string]string{
 		"resolve":  "ResolveBegin ResolveCycle ResolveGet",
-		"length":   "LengthBegin GetFree GetCompressed GetTop ResRet StmLenRet ContRet LengthEnd",
+		"length":   "LengthBegin GetFree GetCompressed GetTop ResRet StmLenRet ContRet CFilRet LengthEnd",
 		"xref":     "XrefBegin XrefSeen XrefRead",
 		"pages":    "PagesBegin PagesDone PagesPopFrame PagesVisit",
 		"outline":  "OutlineBegin OutlineReturn OutlineItem",
